@@ -15,6 +15,8 @@ func init() {
 			c.ScatterPartition("C04")
 			c.ForkJoinRules("C04")
 			c.GateTypestate("C04")
+			c.RequestPathWaits("C04")
+			c.ImmutableAfterConstruction("C09.O5 config.immutable", pkgUnlocker, "unlocker passphrase")
 		},
 		Explanation: "Conservative two-phase locking, decided structurally: every request that can touch a watermark locks each of its keys (keyed by the same bytes as the database key) before the first read and releases them by defer after the last write; nothing reads or writes watermarks outside such a region. See DESIGN.md §5 C04.",
 		Trusted:     append([]string{"Go memory model for sync.Mutex", "the standard 2PL serialisability argument (prose)"}, commonTrusted...),
